@@ -223,6 +223,35 @@ NOT_APPLICABLE = {
 ALL = [f"C{i:02d}" for i in range(1, 21)]
 
 
+
+# round 6 additions to the level texts (DESIGN.md section 14)
+ROUND6 = {
+    "C01": " Round 6: Converter._translate_assign_stmt (parallel assignment of ANY length: every right-hand side is translated in the scope of before the "
+           "statement, each target bound to its own value; 15 statement shapes bounded), attribute parameters promoted to tensors (_to_onnx_var / _to_onnx_attr_ref: "
+           "each use refers to the parameter used), two variables bound to one value inside a branch / loop body (bounded).",
+    "C02": " Round 6: subgraph outputs are pairwise distinct values (If branches, Loop bodies; bounded); subscript expressions across scopes — every operand is "
+           "defined in the graph or an enclosing one (bounded).",
+    "C03": " Round 6: the SplitToSequence evaluator against the operator documentation (chunk count, chunk lengths, split axis kept; bounded; one finding recorded).",
+    "C04": " Round 6: FoldConstantsPass._do_inference (no value of an overridable initializer reaches ONNX shape inference; bounded); process_node against the real "
+           "contract of Graph.register_initializer (a name clash raises; one finding recorded).",
+    "C05": " Round 6: SlicesSplit (ONNX Slice clamping vs the chunks of Split-18 with num_outputs, overridable initializers; bounded in rank, values unbounded).",
+    "C06": " Round 6, without a structure bound: the match state for backtracking stacks of ANY depth and binding tables of ANY size (MatchResult.bind / bind_value / "
+           "lookup_node / bind_node / enter_new_match / abandon_current_match / merge_current_match, PartialMatchResult.merge / fail; symbolic maps, Skolem stack "
+           "position), Pattern.match for any number of node-level / value-level checks and pattern inputs (a match is reported only if every check and the "
+           "condition function accept, each answering in any of the five documented ways), SimplePatternMatcher._get_output_values for any number of outputs, "
+           "NodePattern.matches for any number of attribute patterns and node attributes. By evaluation on the real rewriter: a variable used twice stays one "
+           "variable in every commuted variant.",
+    "C09": " Round 6: MaterializeReshapeShape against the Reshape theory with an annotated data shape (0 = copy / -1 / allowzero decided semantically; bounded "
+           "rank <= 2, bindings {0,1,2,3,7}); evaluators registered WITHOUT a contract get a bounded differential probe (refuted only with a failing input).",
+    "C12": " Round 6, by evaluation on the real GraphBuilder: pairs of special literals (nan, inf, signed zeros, True/1/1.0) never raise and keep their bits; the value "
+           "of a float literal beside DOUBLE / FLOAT16 siblings in graph, eager mode and builder (two findings recorded).",
+    "C13": " Round 6: the loop-carried update and the If outputs are decided by EXECUTING the emitted statements (simultaneous assignment); string tensors in "
+           "attribute text; calls of model-local functions (the re-imported model contains the function; by evaluation on the real exporter + converter).",
+}
+for _pid, _t in ROUND6.items():
+    CHECKS[_pid]["text"] += _t
+
+
 def coverage_lists(pid):
     """Functions of /repo under contract for this property, derived from the scenario tables the check actually runs:
     (verified without a structure bound, only in bounded stand-ins, only by exhaustive evaluation of ground obligations)."""
